@@ -80,6 +80,11 @@ def run_check(prop, tier, only=None, jobs=None, native=True, proof=True, verbose
     if proof:
         results = runner.run_property(prop, tier, only=only, jobs=jobs)
     nat = run_native(prop, tier, seed) if native else None
+    lean_res = []
+    lf = os.path.join(HERE, 'contracts', f'{prop}.lean.txt')
+    if proof and os.path.exists(lf) and not only:
+        from . import lean
+        lean_res = lean.check([l.strip() for l in open(lf) if l.strip() and not l.startswith('#')], force=(tier == 'thorough'))
 
     violations, undecided, errors, known_hit = [], [], [], {}
     n_obl = n_dis = 0
@@ -129,6 +134,14 @@ def run_check(prop, tier, only=None, jobs=None, native=True, proof=True, verbose
                 violations.append(dict(ob=ob, harness=r))
             else:
                 undecided.append(dict(ob=ob, harness=r))
+    for lr in lean_res:
+        for th in lr['theorems']:
+            n_obl += 1
+            if lr['status'] == 'accepted':
+                n_dis += 1
+                backends['lean-4.33+mathlib'] = backends.get('lean-4.33+mathlib', 0) + 1
+        if lr['status'] != 'accepted':
+            errors.append(f"Lean rejected lemmas/{lr['file']}")
     # obligation-count guard against the committed baseline
     missing = []
     if baseline and proof and not only:
@@ -181,17 +194,12 @@ def run_check(prop, tier, only=None, jobs=None, native=True, proof=True, verbose
         rc = 1
     for u in undecided:
         ob, r = u['ob'], u['harness']
-        if ob['name'] in baseline_dis or nat_fail:
-            p = write_replay(prop, ob['name'], dict(kind='obligation-no-longer-discharged', obligation=ob['name'], line=ob.get('line'),
-                                                    solver_status=ob['status'], solver_reason=ob.get('reason'), backend=ob.get('backend'),
-                                                    note='discharged on the unchanged tree (baseline/%s.json), not discharged now' % prop,
-                                                    targets=r['targets'], native_replays=[replay_of[k] for k in replay_of]))
-            tail = '' if nat_fail else ' no-failing-input-found'
-            lines.append(f"VIOLATION property={prop} replay={p}{tail}")
-            rc = 1
-        else:
-            lines.append(f"UNDECIDED property={prop} obligation={ob['name']} solver={ob['status']} ({ob.get('reason')})")
-            rc = max(rc, 2) if rc != 1 else 1
+        # an undischarged obligation is *undecided*, never a violation by itself (DESIGN 3.1/3.3): the bounded run-time contracts searched for a
+        # failing input; if they found one it is reported above (with replay) and the obligation is attached to it, otherwise exit 2.
+        was = ' (discharged on the unchanged tree)' if ob['name'] in baseline_dis else ''
+        lines.append(f"UNDECIDED property={prop} obligation={ob['name']} solver={ob['status']} ({ob.get('reason')}){was}")
+        if rc != 1:
+            rc = 2
     if missing and rc == 0:
         errors.append(f"{len(missing)} baseline obligations were not generated, e.g. {missing[:3]}")
     if errors:
@@ -223,6 +231,7 @@ def run_check(prop, tier, only=None, jobs=None, native=True, proof=True, verbose
             'harnesses': len(results), 'paths': sum(r.get('paths', 0) for r in results),
             'obligations_by_backend': backends, 'solver_time_s': round(solver_time, 2),
             'canary_obligations_checked': canaries,
+            'lean_lemmas': lean_res,
             'out_of_reach': out_of_reach, 'undecided': [u['ob']['name'] for u in undecided],
             'bounded_standins': {'label': 'bounded (never counted as proved)', 'checks': nat_summary, 'cases': bounded_cases},
             'known_findings_matched': {k: v for k, v in known_hit.items()},
